@@ -305,7 +305,7 @@ pub fn build_program(raw: &RawProgram) -> Program {
 }
 
 pub fn layout() -> impl Strategy<Value = Layout> {
-    (any::<u64>(), 0u8..3, any::<bool>()).prop_map(|(seed, style, end)| Layout { seed, style, end })
+    (any::<u64>(), 0u8..4, any::<bool>()).prop_map(|(seed, style, end)| Layout { seed, style, end })
 }
 
 /// Byte sequences that tools tend to treat specially at the start of a stream, a file or a line:
